@@ -730,6 +730,59 @@ impl<T: Config> UdpProtocol<T> {
             return;
         }
 
+        // if we did not receive any input yet, we decode with the blank input,
+        // otherwise we use the input previous to the start of the encoded inputs
+        let decode_frame = if self.last_recv_frame() == NULL_FRAME {
+            NULL_FRAME
+        } else {
+            body.start_frame - 1
+        };
+
+        // Decode and validate the payload before acting on anything else the packet says: a packet
+        // whose payload is not a valid encoding, or whose frames have the wrong size, is dropped as
+        // a whole, including its acknowledgement and its connection-status table.
+        let mut new_inputs = Vec::new();
+        let decodable = if let Some(decode_inp) = self.recv_inputs.get(&decode_frame) {
+            let recv_inputs = match decode(&decode_inp.bytes, &body.bytes) {
+                Ok(inputs) => inputs,
+                Err(e) => {
+                    warn!("Failed to decode input packet, discarding: {e}");
+                    return;
+                }
+            };
+
+            let last_recv_frame = self.last_recv_frame();
+            for (i, inp) in recv_inputs.into_iter().enumerate() {
+                let inp_frame = body.start_frame + i as i32;
+                let input_data = InputBytes {
+                    frame: inp_frame,
+                    bytes: inp,
+                };
+                // every frame of the packet has to have the right shape, also those we already hold
+                let player_inputs = match input_data.to_player_inputs::<T>(self.handles.len()) {
+                    Ok(inputs) => inputs,
+                    Err(e) => {
+                        warn!("Discarding input packet for frame {inp_frame}: {e}");
+                        return;
+                    }
+                };
+                // skip inputs that we don't need
+                if inp_frame <= last_recv_frame {
+                    continue;
+                }
+                new_inputs.push((input_data, player_inputs));
+            }
+            true
+        } else {
+            // we cannot use these inputs (we do not hold the input they were encoded against), but
+            // whether the payload is a well-formed encoding does not depend on that input
+            if let Err(e) = decode(&[], &body.bytes) {
+                warn!("Failed to decode input packet, discarding: {e}");
+                return;
+            }
+            false
+        };
+
         // drop pending outputs until the ack frame
         self.pop_pending_output(body.ack_frame);
 
@@ -752,45 +805,11 @@ impl<T: Config> UdpProtocol<T> {
             }
         }
 
-        // if we did not receive any input yet, we decode with the blank input,
-        // otherwise we use the input previous to the start of the encoded inputs
-        let decode_frame = if self.last_recv_frame() == NULL_FRAME {
-            NULL_FRAME
-        } else {
-            body.start_frame - 1
-        };
-
-        // if we have the necessary input saved, we decode
-        if let Some(decode_inp) = self.recv_inputs.get(&decode_frame) {
+        // if we had the necessary input saved, hand the decoded inputs to the session
+        if decodable {
             self.running_last_input_recv = Instant::now();
 
-            let recv_inputs = match decode(&decode_inp.bytes, &body.bytes) {
-                Ok(inputs) => inputs,
-                Err(e) => {
-                    warn!("Failed to decode input packet, discarding: {e}");
-                    return;
-                }
-            };
-
-            for (i, inp) in recv_inputs.into_iter().enumerate() {
-                let inp_frame = body.start_frame + i as i32;
-                // skip inputs that we don't need
-                if inp_frame <= self.last_recv_frame() {
-                    continue;
-                }
-
-                let input_data = InputBytes {
-                    frame: inp_frame,
-                    bytes: inp,
-                };
-                // send the input to the session
-                let player_inputs = match input_data.to_player_inputs::<T>(self.handles.len()) {
-                    Ok(inputs) => inputs,
-                    Err(e) => {
-                        warn!("Discarding input packet for frame {inp_frame}: {e}");
-                        return;
-                    }
-                };
+            for (input_data, player_inputs) in new_inputs {
                 self.recv_inputs.insert(input_data.frame, input_data);
 
                 for (i, player_input) in player_inputs.into_iter().enumerate() {
